@@ -31,7 +31,11 @@ TermCat == << [tok |-> "42", t |-> S("int", "42")],
               [tok |-> "hex:EE00ff", t |-> S("bytes", "ee00ff")],
               [tok |-> "9223372036854775807", t |-> S("int", "9223372036854775807")],
               [tok |-> "$0", t |-> T("var", "0")],
-              [tok |-> "\"héllo wörld /path/to_file-1.txt\"", t |-> T("str", "héllo wörld /path/to_file-1.txt")] >>
+              [tok |-> "\"héllo wörld /path/to_file-1.txt\"", t |-> T("str", "héllo wörld /path/to_file-1.txt")],
+              \* the lexer's string is any run of characters but the quote: a raw line break is part of the value;
+              \* backslash escapes denote the usual characters
+              [tok |-> "\"line one\nline two\"", t |-> T("str", "line one\nline two")],
+              [tok |-> "\"tab\\there \\\\ back\"", t |-> T("str", "tab\there \\ back")] >>
 GroundTerms == {i \in 1..Len(TermCat) : TermCat[i].t.k # "var"}
 
 Pred(name, ts) == [name |-> name, terms |-> ts]
